@@ -565,4 +565,224 @@ Section Refine.
     rewrite ptext_map. cbn [map]. rewrite join_cons.
     repeat (rewrite <- ?app_assoc; cbn [app]). reflexivity.
   Qed.
+
+  (* ---------------------------------------------------------------- the message loop *)
+  Definition mtext (m : list Z * pj) : text := member_text (fst m, pj_json (snd m)).
+
+  Lemma find_field_num : forall md n fd, find_field md n = Some fd -> fd_num fd = n.
+  Proof. intros md n fd H. unfold find_field in H. apply find_some in H as [_ H]. apply Z.eqb_eq in H. exact H. Qed.
+
+  Lemma nodupb_head : forall n n' l, nodupb Z.eqb (n :: n' :: l) = true -> n' <> n /\ nodupb Z.eqb (n' :: l) = true.
+  Proof.
+    intros n n' l H. cbn [nodupb existsb] in H. apply andb_true_iff in H as [H1 H2].
+    apply negb_true_iff in H1. apply orb_false_iff in H1 as [H1 _]. apply Z.eqb_neq in H1.
+    split; [congruence | exact H2].
+  Qed.
+
+  Definition fld_ok (md : mdesc) (nv : Z * pval) : Prop :=
+    exists fd, find_field md (fst nv) = Some fd /\ 1 <= fst nv <= MAX_FIELD_NUMBER /\
+               wf_fld S (fd_label fd) (fd_type fd) (snd nv) = true.
+
+  (* the first record of a well-formed field *)
+  Lemma fld_records : forall md nv, fld_ok md nv ->
+    exists w ws, fvals (snd nv) = w :: ws /\ wfld (fst nv) (snd nv) = (fst nv, w) :: map (pair (fst nv)) ws /\
+                 wf_wfield (fst nv, w) = true.
+  Proof.
+    intros md [n v] (fd & Hfind & Hn & Hwf). cbn [fst snd] in *.
+    destruct (wfld_fvals S _ _ v n Hwf) as [E Hne]. pose proof (fvals_wf S _ _ v Hwf) as Hall.
+    destruct (fvals v) as [|w ws]; [contradiction|]. exists w, ws. split; [reflexivity|]. split; [exact E|].
+    cbn [forallb] in Hall. apply andb_true_iff in Hall as [Hw _].
+    unfold wf_wfield. cbn [fst snd]. rewrite Hw.
+    destruct (Z.leb_spec 1 n); [|lia]. destruct (Z.leb_spec n MAX_FIELD_NUMBER); [|lia]. reflexivity.
+  Qed.
+
+  Lemma stops_next : forall md n fs, nodupb Z.eqb (n :: map fst fs) = true -> (forall nv, In nv fs -> fld_ok md nv) ->
+    stops n (wenc (msg_wire fs)).
+  Proof.
+    intros md n fs Hnd Hok. destruct fs as [|[n' v'] fs']; [left; reflexivity|]. right.
+    cbn [map fst] in Hnd. destruct (nodupb_head _ _ _ Hnd) as [Hne _].
+    destruct (fld_records md (n', v') (Hok _ (or_introl eq_refl))) as (w & ws & _ & Ew & Hwf). cbn [fst snd] in *.
+    unfold msg_wire. cbn [flat_map fst snd]. rewrite Ew. cbn [app]. rewrite wenc_cons.
+    exists n', (wt_of_wval w), (wenc_val w ++ wenc (map (pair n') ws ++ flat_map (fun nv => wfld (fst nv) (snd nv)) fs')).
+    split; [|exact Hne]. rewrite (rd_tag_field _ _ Hwf). reflexivity.
+  Qed.
+
+  Lemma fields_ok : forall d md fs ms,
+    Forall2 (fun nv m => match find_field md (fst nv) with
+                         | Some fd => option_map (fun p => (fd_json fd, p)) (pj_fld S o (fd_label fd) (fd_type fd) (snd nv))
+                         | None => None
+                         end = Some m) fs ms ->
+    (forall nv, In nv fs -> P (snd nv)) ->
+    nodupb Z.eqb (map fst fs) = true ->
+    (forall nv, In nv fs -> fld_ok md nv) ->
+    (forall nv, In nv fs -> pval_bytes_okb (snd nv) = true) ->
+    (forall nv, In nv fs -> (depth (snd nv) <= d)%nat) ->
+    forall fuel comma, (length (wenc (msg_wire fs)) < fuel)%nat ->
+    walk_fields f64_lex o (wm d) fuel md comma (wenc (msg_wire fs)) =
+    if forallb (fun m => pj_finite (snd m)) ms then Some (sep_join comma (map mtext ms)) else None.
+  Proof.
+    intros d md fs ms HF. induction HF as [|[n v] m fs ms Hrel _ IH]; intros HP Hnd Hok Hb Hd fuel comma Hfuel.
+    - destruct fuel; reflexivity.
+    - destruct (Hok (n, v) (or_introl eq_refl)) as (fd & Hfind & Hn & Hwf). cbn [fst snd] in *.
+      rewrite Hfind in Hrel.
+      destruct (pj_fld S o (fd_label fd) (fd_type fd) v) as [p|] eqn:Hp; [|discriminate Hrel].
+      inversion Hrel; subst m. clear Hrel.
+      destruct (fld_records md (n, v) (Hok _ (or_introl eq_refl))) as (w & ws & Efv & Ew & Hwfw). cbn [fst snd] in *.
+      assert (Ewire : wenc (msg_wire ((n, v) :: fs)) =
+                      wenc_field (n, w) ++ wenc_val w ++ [] ++ [] -> True) by (intros; exact I). clear Ewire.
+      assert (Ebody : wenc (msg_wire ((n, v) :: fs)) = wenc_field (n, w) ++ (wenc (map (pair n) ws) ++ wenc (msg_wire fs))).
+      { unfold msg_wire. cbn [flat_map fst snd]. rewrite Ew. fold (msg_wire fs).
+        change (((n, w) :: map (pair n) ws) ++ msg_wire fs) with ((n, w) :: (map (pair n) ws ++ msg_wire fs)).
+        rewrite wenc_cons, wenc_app. reflexivity. }
+      rewrite Ebody in Hfuel |- *.
+      destruct (nonempty_field_app (n, w) (wenc (map (pair n) ws) ++ wenc (msg_wire fs))) as [b [tl E]].
+      destruct fuel as [|f]; [rewrite E in Hfuel; cbn in Hfuel; lia|].
+      rewrite E. cbn [walk_fields]. rewrite <- E.
+      rewrite (rd_tag_field _ _ Hwfw). cbn [fst snd]. rewrite Hfind.
+      rewrite walk_field_lbl, (find_field_num _ _ _ Hfind).
+      assert (Hst : fd_label fd = LSingular \/ stops n (wenc (msg_wire fs))).
+      { right. apply (stops_next md); [exact Hnd|]. intros nv Hnv. apply Hok. right. exact Hnv. }
+      pose proof (HP (n, v) (or_introl eq_refl) d (fd_label fd) (fd_type fd) n p (wenc (msg_wire fs)) Hwf
+                    (Hb _ (or_introl eq_refl)) Hp (Hd _ (or_introl eq_refl)) Hn Hst) as Hv.
+      cbn [snd] in Hv. rewrite Efv in Hv. rewrite Hv. unfold res.
+      cbn [forallb snd]. destruct (pj_finite p); [|reflexivity]. cbn [andb].
+      assert (Hnd' : nodupb Z.eqb (map fst fs) = true).
+      { cbn [map nodupb fst] in Hnd. apply andb_true_iff in Hnd as [_ Hnd]. exact Hnd. }
+      rewrite (IH (fun nv H => HP nv (or_intror H)) Hnd' (fun nv H => Hok nv (or_intror H))
+                  (fun nv H => Hb nv (or_intror H)) (fun nv H => Hd nv (or_intror H)) f true).
+      + destruct (forallb (fun m => pj_finite (snd m)) ms); [|reflexivity].
+        cbn [map sep_join].
+        change (mtext (fd_json fd, p)) with (quote_ref (fd_json fd) ++ 58 :: json_print (pj_json p)).
+        repeat (rewrite <- ?app_assoc; cbn [app]). reflexivity.
+      + rewrite app_length in Hfuel. destruct (wenc_field_cons (n, w)) as [b' [t' E']].
+        rewrite E' in Hfuel. cbn [length] in Hfuel. rewrite app_length in Hfuel. lia.
+  Qed.
+
+  (* a whole message body at nesting fuel d + 1 *)
+  Lemma body_ok : forall d name md fs ms,
+    find_msg S name = Some md ->
+    nodupb Z.eqb (map fst fs) = true ->
+    (forall nv, In nv fs -> fld_ok md nv) ->
+    (forall nv, In nv fs -> P (snd nv)) ->
+    (forall nv, In nv fs -> pval_bytes_okb (snd nv) = true) ->
+    (forall nv, In nv fs -> (depth (snd nv) <= d)%nat) ->
+    seq_opt (map (fun nv => match find_field md (fst nv) with
+                            | Some fd => option_map (fun p => (fd_json fd, p)) (pj_fld S o (fd_label fd) (fd_type fd) (snd nv))
+                            | None => None
+                            end) fs) = Some ms ->
+    wm (Datatypes.S d) name (encode_msg fs) =
+    if pj_finite (PJObj ms) then Some (ptext (PJObj ms)) else None.
+  Proof.
+    intros d name md fs ms Hm Hnd Hok HP Hb Hd E. apply seq_opt_Forall2 in E.
+    cbn [walk_msg]. unfold walk_body. rewrite Hm. unfold encode_msg.
+    rewrite (fields_ok d md fs ms E HP Hnd Hok Hb Hd) by lia.
+    cbn [pj_finite]. destruct (forallb (fun m => pj_finite (snd m)) ms); [|reflexivity].
+    unfold ptext. cbn [pj_json]. rewrite print_obj, sep_join_false, map_map. reflexivity.
+  Qed.
+
+  Lemma msg_fld_ok : forall md fs,
+    forallb (fun nv => match find_field md (fst nv) with
+                       | Some fd => (1 <=? fst nv) && (fst nv <=? MAX_FIELD_NUMBER) && wf_fld S (fd_label fd) (fd_type fd) (snd nv)
+                       | None => false
+                       end) fs = true ->
+    forall nv, In nv fs -> fld_ok md nv.
+  Proof.
+    intros md fs H nv Hin. rewrite forallb_forall in H. specialize (H nv Hin).
+    destruct (find_field md (fst nv)) as [fd|] eqn:E; [|discriminate].
+    apply andb_true_iff in H as [H Hwf]. apply andb_true_iff in H as [H1 H2]. apply Z.leb_le in H1, H2.
+    exists fd. repeat split; try assumption.
+  Qed.
+
+  Lemma P_msg : forall fs, Forall (fun nv => P (snd nv)) fs -> P (VMsg fs).
+  Proof.
+    intros fs IH d lbl t n p rest Hwf Hb Hp Hd Hn _.
+    destruct lbl; cbn [wf_fld] in Hwf; try discriminate.
+    destruct t as [|name]; [discriminate|]. destruct (find_msg S name) as [md|] eqn:Hm; [|discriminate].
+    apply andb_true_iff in Hwf as [Hwf Hall]. apply andb_true_iff in Hwf as [Hnd Hlen].
+    cbn [pj_fld] in Hp. rewrite Hm in Hp.
+    match type of Hp with option_map _ ?x = _ => destruct x as [ms|] eqn:E; [|discriminate] end.
+    inversion Hp; subst p. clear Hp.
+    cbn [pval_bytes_okb] in Hb. rewrite forallb_forall in Hb. rewrite Forall_forall in IH.
+    cbn [depth] in Hd. destruct d as [|d']; [lia|].
+    assert (Hdep : forall nv, In nv fs -> (depth (snd nv) <= d')%nat).
+    { intros nv Hx. pose proof (fold_max_ge (fun nv => depth (snd nv)) fs nv Hx). cbn beta in H. lia. }
+    cbn [fvals sval map wenc flat_map app wt_of_wval].
+    unfold walk_lbl, read_single.
+    change 2 with (wt_of_wval (WBytes (encode_msg fs))) at 1.
+    rewrite (wdec_val_enc (WBytes (encode_msg fs)) rest Hlen).
+    rewrite (body_ok d' name md fs ms Hm Hnd (msg_fld_ok md fs Hall) IH Hb Hdep E).
+    unfold res. destruct (pj_finite (PJObj ms)); reflexivity.
+  Qed.
+
+  Lemma P_scalar : forall k x, P (VScalar k x).
+  Proof.
+    intros k x d lbl t n p rest Hwf Hb Hp Hd Hn _.
+    destruct lbl; cbn [wf_fld] in Hwf; try discriminate.
+    destruct t as [k'|]; [|discriminate].
+    apply andb_true_iff in Hwf as [Hwf Hok]. apply andb_true_iff in Hwf as [Hk Hnum]. apply Z.eqb_eq in Hk. subst k'.
+    cbn [pj_fld] in Hp. rewrite Z.eqb_refl in Hp.
+    cbn [fvals sval map wenc flat_map app]. unfold walk_lbl.
+    rewrite (read_scalar_ok o (wm d) k x p rest Hnum Hok Hp). reflexivity.
+  Qed.
+
+  Lemma P_bytes : forall k b, P (VBytes k b).
+  Proof.
+    intros k b d lbl t n p rest Hwf Hb Hp Hd Hn _.
+    destruct lbl; cbn [wf_fld] in Hwf; try discriminate.
+    destruct t as [k'|]; [|discriminate].
+    apply andb_true_iff in Hwf as [Hwf Hlen]. apply andb_true_iff in Hwf as [Hk Hby]. apply Z.eqb_eq in Hk. subst k'.
+    cbn [pj_fld] in Hp. rewrite Z.eqb_refl in Hp. cbn [negb] in Hp.
+    cbn [fvals sval map wenc flat_map app]. unfold walk_lbl.
+    cbn [pval_bytes_okb] in Hb.
+    rewrite (read_bytes_ok o (wm d) k b rest Hby Hlen Hb). unfold res.
+    destruct (k =? K_STRING); [inversion Hp; subst p; reflexivity|].
+    destruct (k =? K_BYTES); [inversion Hp; subst p; reflexivity|discriminate].
+  Qed.
+
+  Theorem P_all : forall v, P v.
+  Proof.
+    induction v as [k x|k b|fs IH|q vs IH|kvs IH] using pval_ind'.
+    - apply P_scalar. - apply P_bytes. - apply P_msg; exact IH. - apply P_list; exact IH. - apply P_map; exact IH.
+  Qed.
+
+  (* ---------------------------------------------------------------- the refinement theorem *)
+  Theorem walk_refines_spec : forall name m fuel p,
+    wf_msg S name m = true -> pval_bytes_okb (VMsg m) = true -> (depth (VMsg m) <= fuel)%nat ->
+    pj_of S o name m = Some p ->
+    p2j_walk fuel o S name (encode_msg m) = if pj_finite p then Some (json_print (pj_json p)) else None.
+  Proof.
+    intros name m fuel p Hwf Hb Hd Hp. unfold pj_of in Hp.
+    pose proof (P_all (VMsg m) fuel LSingular (TMsg name) 1 p [] Hwf Hb Hp Hd
+                      ltac:(unfold MAX_FIELD_NUMBER; lia) (or_introl eq_refl)) as H.
+    cbn [fvals sval map wenc flat_map app wt_of_wval] in H. unfold walk_lbl, read_single in H.
+    unfold wf_msg in Hwf. cbn [wf_fld] in Hwf. destruct (find_msg S name); [|discriminate].
+    apply andb_true_iff in Hwf as [Hwf _]. apply andb_true_iff in Hwf as [_ Hlen].
+    change 2 with (wt_of_wval (WBytes (encode_msg m))) in H at 1.
+    rewrite (wdec_val_enc (WBytes (encode_msg m)) [] Hlen) in H.
+    unfold p2j_walk, p2j_walk_gen. unfold res in H.
+    destruct (wm fuel name (encode_msg m)) as [t|]; destruct (pj_finite p); try discriminate H;
+      [inversion H; reflexivity | reflexivity].
+  Qed.
+
+  Corollary walk_is_print_of_spec : forall name m fuel p,
+    wf_msg S name m = true -> pval_bytes_okb (VMsg m) = true -> (depth (VMsg m) <= fuel)%nat ->
+    pj_of S o name m = Some p ->
+    p2j_walk fuel o S name (encode_msg m) = option_map json_print (pjson_of S o name m).
+  Proof.
+    intros name m fuel p Hwf Hb Hd Hp. rewrite (walk_refines_spec name m fuel p Hwf Hb Hd Hp).
+    unfold pjson_of. rewrite Hp. destruct (pj_finite p); reflexivity.
+  Qed.
+
+  (* whenever the walk over a canonical encoding succeeds, its text parses to exactly the denotation *)
+  Corollary walk_output_valid : forall name m fuel p t,
+    wf_msg S name m = true -> pval_bytes_okb (VMsg m) = true -> schema_bytes_okb S = true ->
+    (depth (VMsg m) <= fuel)%nat -> pj_of S o name m = Some p ->
+    p2j_walk fuel o S name (encode_msg m) = Some t ->
+    pjson_of S o name m = Some (pj_json p) /\ json_parse t = Some (pj_json p).
+  Proof.
+    intros name m fuel p t Hwf Hb HS Hd Hp Hw. rewrite (walk_refines_spec name m fuel p Hwf Hb Hd Hp) in Hw.
+    destruct (pj_finite p) eqn:Hf; [|discriminate Hw]. inversion Hw; subst t.
+    assert (Hj : pjson_of S o name m = Some (pj_json p)) by (unfold pjson_of; rewrite Hp, Hf; reflexivity).
+    split; [exact Hj|]. exact (pjson_prints_valid_pf S o name m (pj_json p) HS Hb Hj).
+  Qed.
 End Refine.
